@@ -8,7 +8,7 @@ def run(tier, seed, update_ledger=False, only=None, jobs=None):
                      unbounded_in=["all tensor values", "multinomial draws of the random mask"],
                      bounded_in={"shapes": "<= 3 dims of size <= 3 (thorough), 5 shapes (quick)", "n / num_reps": "1..3 quick, 1..4 thorough",
                                  "mask features": "1..6 (1..3 random) quick; 1..8 (1..4 random) thorough", "searchsorted bins": "1..3 / 1..5"},
-                     not_decided=["get_temperature and gaussian_kde_log_eval are not under contract in C20 (the KDE evaluator is covered by C05)",
+                     not_decided=["gaussian_kde_log_eval is under contract in C05 (density clause), not here; get_temperature: the legacy constructor torch.Tensor([scalar]) is not visible to TorchFunctionMode and enters as an assumed contract (one-element tensor holding the scalar), preconditions max_value > 0 and 0 < bound < 1",
                                   "cbrt at x = 0 is an IEEE-only point (log 0 = -inf): evaluated natively in the replay clause, excluded from the real-arithmetic contract"],
                      assumptions=["torch.slogdet returns (sign det, log|det|) (external contract)", "torch.multinomial(replacement=False) returns distinct in-range indices",
                                   "typechecks are pure Python predicates: decided by evaluation on a fixed value list, labelled bounded"])
